@@ -99,6 +99,22 @@ func (ex *Exec) encoded(fn *ssa.Function) bool {
 func (m *M) callFn(fn *ssa.Function, args []Value, env []Value, retTo ssa.Value, isDefer bool) {
 	ex := m.ex
 	name := canonName(fn)
+	// package initialisers: only the packages listed with verif:init are initialised; the init of any other
+	// imported package is skipped (its globals stay unreadable, see globalObj)
+	if fn.Name() == "init" && fn.Synthetic == "package initializer" {
+		p := funcPkgPath(fn)
+		run := false
+		for _, ip := range ex.Cfg.InitPkgs {
+			if ip == p {
+				run = true
+			}
+		}
+		if !run {
+			return
+		}
+		m.pushFrame(fn, args, env, retTo, isDefer)
+		return
+	}
 	// 1. harness primitives
 	if prim, ok := primitives[fn.Name()]; ok && (fn.Pkg == ex.Harness || fn.Pkg == nil) {
 		res := prim(m, fn, args)
